@@ -86,6 +86,7 @@ public:
     void unlock() {
         call_itt_notify(releasing, this);
         state_type curr_state = (m_state &= READERS | WRITER_PENDING); // Returns current state
+        __TBB_VERIF_POINT(vp_rwm_step, this, 1);
 
         if (curr_state & WRITER_PENDING) {
             r1::notify_by_address(this, WRITER_CONTEXT);
